@@ -21,6 +21,9 @@ void harness(void)
     unsigned char buf[VF_N + 1];
     unsigned n = nondet_uint();
     VF_ASSUME(n <= VF_N);
+#ifdef VF_EXACT_N
+    n = VF_N;                  /* one query per length */
+#endif
 #ifdef VF_TAIL_ALIGN     /* terminator = last byte of the object */
     unsigned char *s = buf + (VF_N - n);
 #else
